@@ -1677,7 +1677,7 @@ Lemma keep_clause W q m i wc :
   else [].
 Proof.
   induction wc as [|wl wc IHw]; cbn [map filter].
-  - destruct (q i), (clause_sat m _); reflexivity.
+  - destruct (q i), (clause_sat m (map snd (nth i W []))); reflexivity.
   - unfold keep at 1. cbn [fst snd].
     destruct (q i); cbn [andb]; [|exact IHw].
     destruct (clause_sat m (map snd (nth i W []))); cbn [negb andb] in *; [exact IHw|].
@@ -1760,7 +1760,10 @@ Proof.
   unfold no_falsified, residual, h_hash in *. rewrite C1, C2, S1, S2, W1, W2 in *.
   destruct (fold_left d_step ops1 [[]]) as [|d1 r1], (fold_left d_step ops2 [[]]) as [|d2 r2];
     cbn [map] in *; try reflexivity; try discriminate.
-  f_equal. inversion Hh as [Hv]; clear Hh. apply repeat_inj_num_primes in Hv.
+  f_equal.
+  assert (Hv : hash_top W m1 (top_spec cs d1) = hash_top W m2 (top_spec cs d2))
+    by (apply repeat_inj_num_primes; congruence).
+  clear Hh.
   rewrite !hash_top_spec in Hv.
   set (q1 := fun i => nonunit cs i && live_ok cs d1 i) in *.
   set (q2 := fun i => nonunit cs i && live_ok cs d2 i) in *.
@@ -1781,10 +1784,10 @@ Proof.
   clear Hv Hle.
   (* per clause index *)
   assert (Hocc : forall i wl, (i < length W)%nat -> In wl (nth i W []) -> In (fst wl, (i, snd wl)) L).
-  { intros i wl Hi Hwl. unfold L, occs_of. apply in_flat_map. exists i. split; [apply in_seq; lia|].
+  { intros i wl Hilt Hwl. unfold L, occs_of. apply in_flat_map. exists i. split; [apply in_seq; lia|].
     apply in_map_iff. exists wl. split; [reflexivity|exact Hwl]. }
   assert (Hnth : forall i, nth i cs [] = map snd (nth i W [])) by (intros i; rewrite <- HC; apply nth_map_snd).
-  rewrite !residual_filter. apply flat_map_ext_in. intros i Hi. apply in_seq in Hi.
+  rewrite !residual_filter. apply flat_map_ext_in. intros i Hilt. apply in_seq in Hilt.
   assert (Hk : forall wl, In wl (nth i W []) ->
             q1 i && negb (clause_sat m1 (nth i cs [])) && unassigned m1 (snd wl)
             = q2 i && negb (clause_sat m2 (nth i cs [])) && unassigned m2 (snd wl)).
@@ -1813,4 +1816,71 @@ Proof.
   - exfalso. destruct (Hwit q2 m2 NF2 K2) as [wl [Hwl Hu]]. specialize (Hk wl Hwl).
     rewrite Hu in Hk. cbn in Hk. discriminate.
   - reflexivity.
+Qed.
+
+(* when the live decided literals are all implied by the queried model (the way the
+   compiler uses the hasher), the history is irrelevant: hash and residual are those of the
+   fresh hasher, i.e. functions of the partial model alone *)
+Theorem cnfhasher_history_irrelevant cs nv h0 ops h d r m :
+  hasher_new cs nv = Some h0 -> h_run h0 ops = Some h -> d_run ops = d :: r ->
+  (forall l, In l d -> pm_lit_implied m l = true) ->
+  residual h m = residual h0 m /\ h_hash h m = h_hash h0 m.
+Proof.
+  intros H0 Hr Hd Himp.
+  assert (Hres : residual h m = residual h0 m).
+  { destruct (hasher_new_facts _ _ _ H0) as (Hi & _ & _).
+    destruct (hinv_run _ _ _ _ _ _ Hi Hr) as (C1 & _ & _ & S1).
+    destruct Hi as (C0 & _ & _ & S0).
+    unfold residual. rewrite C1, C0, S1, S0. fold (d_run ops). rewrite Hd. cbn [map]. f_equal.
+    unfold top_spec. rewrite !residual_filter. apply flat_map_ext_in. intros i _.
+    unfold live_ok at 2. cbn [existsb negb]. rewrite andb_true_r.
+    destruct (live_ok cs d i) eqn:El; [rewrite andb_true_r; reflexivity|].
+    assert (Hs : clause_sat m (nth i cs []) = true).
+    { unfold live_ok in El. apply negb_false_iff, existsb_exists in El.
+      destruct El as [l [Hl Hc]]. unfold clause_contains in Hc. apply existsb_exists in Hc.
+      destruct Hc as [l' [Hl' He]]. apply lit_eqb_eq in He. subst l'.
+      unfold clause_sat. apply existsb_exists. exists l. split; [exact Hl'|apply Himp, Hl]. }
+    rewrite Hs. cbn [negb]. rewrite !andb_false_r. reflexivity. }
+  split; [exact Hres|].
+  rewrite !h_hash_residual, Hres. destruct (h_run_wcnf _ _ _ Hr) as [-> _]. reflexivity.
+Qed.
+
+(* The reading of "equal residuals" that forgets which clause a residual clause came from is
+   NOT enough for equal hashes: primes belong to literal occurrences, so the same residual
+   clause arising from two different clauses hashes differently.  (No soundness issue for a
+   component cache -- only a missed hit.)  Witness: (!x0 | x1) & (x0 | x1); x0=F leaves (x1)
+   from clause 1... *)
+Definition untagged (r : option (list (nat * clause))) : option (list clause) :=
+  match r with Some l => Some (map snd l) | None => None end.
+
+Theorem cnfhasher_if_untagged_refuted :
+  exists cs h m1 m2,
+    cnf_hasher (cnf_new cs) = Some h /\
+    untagged (residual h m1) = untagged (residual h m2) /\
+    no_falsified h m1 /\ no_falsified h m2 /\
+    h_hash h m1 <> h_hash h m2.
+Proof.
+  exists [[(0, false); (1, true)]; [(0, true); (1, true)]].
+  eexists. exists (pm_from_assignments [Some false]), (pm_from_assignments [Some true]).
+  split; [vm_compute; reflexivity|]. split; [vm_compute; reflexivity|].
+  split; [|split].
+  - intros res i cl H Hin. vm_compute in H. inversion H; subst.
+    destruct Hin as [E|[]]. inversion E; subst. discriminate.
+  - intros res i cl H Hin. vm_compute in H. inversion H; subst.
+    destruct Hin as [E|[]]. inversion E; subst. discriminate.
+  - vm_compute. discriminate.
+Qed.
+
+(* and without the "falsifies no clause" guard the "only if" direction fails even for tiny
+   formulas: a falsified clause contributes the factor 1, exactly like a satisfied one *)
+Theorem cnfhasher_only_if_unguarded_refuted :
+  exists cs h m1 m2,
+    cnf_hasher (cnf_new cs) = Some h /\
+    prodN (concat (map (map fst) (h_wcnf h))) < two128 /\
+    h_hash h m1 = h_hash h m2 /\ residual h m1 <> residual h m2.
+Proof.
+  exists [[(0, true); (1, true)]; [(2, true); (3, true)]].
+  eexists. exists (pm_from_assignments [Some false; Some false]), (pm_from_assignments [Some true]).
+  split; [vm_compute; reflexivity|]. split; [vm_compute; reflexivity|].
+  split; [vm_compute; reflexivity|]. vm_compute. discriminate.
 Qed.
